@@ -308,7 +308,21 @@ def c16(tier, seed, work):
                       "BMC; result and request sequence compared by TLC with the specification's.")
 
 
-CHECKS.update({"C12": c12, "C16": c16})
+def c14(tier, seed, work):
+    fams = [dict(name="c14-plain", module="MCGenSdr", cfg_tpl="Gen_Cipher.cfg.tpl", family="plain", tier=tier, seed=seed),
+            dict(name="c14-events", module="MCGenSdr", cfg_tpl="Gen_Cipher.cfg.tpl", family="events", tier=tier, seed=seed)]
+    muts = [("SdrWalk", "Mutant_SdrWalk_Compare.cfg", "ResultIsSnapshot"), ("SdrWalk", "Mutant_SdrWalk_KeyByOwnID.cfg", "ResultIsSnapshot")]
+    return walk_check("C14", tier, seed, work, [("SdrWalk", "MC_SdrWalk_quick.cfg" if tier == "quick" else "MC_SdrWalk.cfg")],
+                      muts if tier != "quick" else [], fams,
+                      "SdrWalk.tla (repository device with reservation and addition/erase time stamps; console walk with comparison and "
+                      "retry) checked exhaustively: ResultIsSnapshot, KeysAreOwnIDs, EachOnce for <= 3 records over IDs {0,1,5} and <= 2 "
+                      "environment events. Generated repositories (1..40 records, sparse unordered IDs, first ID zero or not, "
+                      "full/compact/FRU-locator/OEM records, all ID-string encodings and lengths incl. empty) are served in session by a "
+                      "rule-driven BMC; a modification (either time stamp) or a reservation loss is injected before each possible Get SDR "
+                      "request, with strict and lenient stale-reservation behaviour; TLC compares the returned map with the snapshot.")
+
+
+CHECKS.update({"C12": c12, "C14": c14, "C16": c16})
 
 
 def c03(tier, seed, work):
